@@ -7,7 +7,8 @@ quara/utils/number_util.py:to_stream and the seed plumbing of quara/qcircuit/exp
 The model mirrors the code as it is:
 
 * `randomNumberToData` = `_random_number_to_data`: the cumulative-sum loop with the strict test
-  `random_number < cumulative_sum`, and the fall-through `len(probdist) - 1` (an `Int`: `-1` for an empty vector);
+  `random_number < cumulative_sum`; after a fall-through the backward loop returns the last outcome with `probdist[index] > 0`,
+  and `len(probdist) - 1` (an `Int`: `-1` for an empty vector) if there is none;
 * `calcEmpiDistSequence` = `calc_empi_dist_sequence`: one pass over the data, a running frequency vector, the
   requested sample sizes consumed one after the other, the validation errors in the order of the code; its tests and offsets are the generated `QGen.C14.empi*` (note: a
   first sample size `≤ 0` is never reached — the loop then validates all data and returns the empty list);
@@ -26,11 +27,26 @@ def r2dLoop : List Rat → Rat → Rat → Nat → Option Nat
   | [], _, _, _ => none
   | p :: ps, u, cum, idx => if QGen.C14.hit u (cum + p) then some idx else r2dLoop ps u (cum + p) (idx + 1)
 
-/-- comparison, start value and fall-through result are the generated ones (`QGen.C14`, regenerated from the source) -/
+/-- the backward loop `for index in range(len - 1, -1, -1): if probdist[index] > 0: return index`: the LAST position (from
+`idx`) whose entry passes the generated test `fallKeep` -/
+def lastKeep : List Rat → Nat → Option Nat
+  | [], _ => none
+  | p :: ps, idx =>
+    match lastKeep ps (idx + 1) with
+    | some j => some j
+    | none => if QGen.C14.fallKeep p then some idx else none
+
+/-- what is returned when the first loop falls through: the last outcome of positive probability, `len − 1` if there is none -/
+def fallResult (probs : List Rat) : Int :=
+  match lastKeep probs 0 with
+  | some j => (j : Int)
+  | none => QGen.C14.fallThrough (probs.length : Int)
+
+/-- comparison, start value, backward test and final result are the generated ones (`QGen.C14`, regenerated from the source) -/
 def randomNumberToData (probs : List Rat) (u : Rat) : Int :=
   match r2dLoop probs u QGen.C14.cumStart 0 with
   | some i => (i : Int)
-  | none => QGen.C14.fallThrough (probs.length : Int)
+  | none => fallResult probs
 
 /-- the same loop with an arbitrary addition for the running sum: the code adds in IEEE double precision, which is not
 the exact `+`; the theorems that transfer to the float code assume only `add c 0 = c` -/
@@ -45,10 +61,16 @@ def r2dCums : List Rat → Rat → Nat → Option Nat
   | c :: cs, u, idx => if QGen.C14.hit u c then some idx else r2dCums cs u (idx + 1)
 
 /-- `_random_number_to_data` given the running sums the code computed (floats, as exact rationals) -/
-def randomNumberToDataCums (len : Nat) (cums : List Rat) (u : Rat) : Int :=
+def randomNumberToDataCums (probs : List Rat) (cums : List Rat) (u : Rat) : Int :=
   match r2dCums cums u 0 with
   | some i => (i : Int)
-  | none => QGen.C14.fallThrough (len : Int)
+  | none => fallResult probs
+
+/-- `_random_number_to_data` with an arbitrary addition for the running sum -/
+def randomNumberToDataW (add : Rat → Rat → Rat) (probs : List Rat) (u : Rat) : Int :=
+  match r2dLoopW add probs u QGen.C14.cumStart 0 with
+  | some i => (i : Int)
+  | none => fallResult probs
 
 /-- `generate_data_from_prob_dist` after the random numbers have been drawn -/
 def dataOfUniforms (probs : List Rat) (us : List Rat) : List Int := us.map (randomNumberToData probs)
@@ -286,12 +308,12 @@ def handle (args : List String) : Option String :=
       let probs ← parseList? parseRat? probs
       let u ← parseRat? u
       some (toString (randomNumberToData probs u))
-  | ["r2dcs", len, cums, u] => do
+  | ["r2dcs", probs, cums, u] => do
       -- the inversion on the running sums the implementation computed (floats as exact rationals)
-      let len ← parseNat? len
+      let probs ← parseList? parseRat? probs
       let cums ← parseList? parseRat? cums
       let u ← parseRat? u
-      some (toString (randomNumberToDataCums len cums u))
+      some (toString (randomNumberToDataCums probs cums u))
   | ["dsargs", glob, gens, seeds, jobs] => do
       -- generate_dataset_from_prob_dists with a LIST of seed arguments: executes genDatasetArgs → genData → toStream with the
       -- global state, held generator objects and fresh int-seeded generators, all on recorded tapes
